@@ -6,7 +6,7 @@
    C# statement interpreter (translator/csmini.py) and compares traces. *)
 From Coq Require Import String List Bool Arith.
 From KV Require Import Lib.TableDef Model.TTable Model.CsShape Spec.TableInterp Gen.CsTmpl Model.CsSM
-                       Proofs.TTableProofs Proofs.SmlProofs Proofs.CsProofs Model.DeclShape Gen.DeclTmpl Model.Decls Proofs.DeclProofs
+                       Proofs.TTableProofs Proofs.SmlProofs Proofs.CsProofs Model.CsThreads Proofs.CsThreadsProofs Model.DeclShape Gen.DeclTmpl Model.Decls Proofs.DeclProofs
                        Lib.Str Model.Engine Model.EngineSM Model.EngineDomain Model.EngineDomain16 Spec.RefExpand16 Model.Parse16 Model.CsRender Proofs.CsBridge.
 Import KV.Model.CsShape KV.Model.CsSM.
 Import ListNotations.
@@ -40,6 +40,30 @@ Theorem C10_init : forall t, wf_table t = true -> forall gv,
   run_cs t [] gv = Some [([CEntry (first_state t) startup_event], first_state t)].
 Proof. intros t H gv. exact (cs_sem t H [] gv). Qed.
 Print Assumptions C10_init.
+
+(* The THREADED configuration (user tag StateMachineThread = 1, the default).  Trigger<e> only enqueues the event, the
+   dispatch thread started by the constructor dequeues and dispatches for ever; both are executed from the IR that
+   translator/cstmpl.py parses out of the SM_THREAD_1 branches of the templates (Gen/CsTmpl.v: cs_trigger_thr_ir,
+   cs_dispatch_loop_ir), one IR statement per atomic step, under an arbitrary schedule (Model/CsThreads.v).
+   Safety, for EVERY schedule: what has been handled so far is exactly the interpreter's run on a prefix of the Trigger
+   order -- each handled event exactly once, in Trigger order, by the handler of the state the machine was in. *)
+Theorem C10_threaded_safe : forall t, wf_table t = true -> forall evs gv sched,
+  exists handled rest, evs = (handled ++ rest)%list /\
+    t_out (trun t gv sched (tinit t evs)) = table_interp_quiet t handled gv.
+Proof. exact cs_sem_threaded_safe. Qed.
+Print Assumptions C10_threaded_safe.
+
+(* Every triggered event is handled: any schedule that gives the producer as many turns as there are events and afterwards
+   the dispatch thread 2 * (number of events) + 1 turns -- in particular every fair schedule -- ends with an empty queue and
+   exactly the interpreter's callbacks and states on the whole Trigger order.  (With a dispatch loop that waits on an
+   auto-reset signal which Trigger sets once per event -- seed C10-6 -- the IR changes and the progress part of this proof
+   stops compiling: two Sets before one WaitOne release the loop once.) *)
+Theorem C10_sem_threaded : forall t, wf_table t = true -> forall evs gv sched1 sched2,
+  length evs <= count_choice true sched1 -> 2 * length evs + 1 <= count_choice false sched2 ->
+  let s := trun t gv (sched1 ++ sched2) (tinit t evs) in
+  t_out s = table_interp_quiet t evs gv /\ t_q s = [] /\ t_pend s = [].
+Proof. exact cs_sem_threaded. Qed.
+Print Assumptions C10_sem_threaded.
 
 (* The helper methods as they were seeded in seeded/C10-2 (Enter<StateT>() returns early when the current state object
    already is a StateT): executed by the same semantics, a self transition that fires runs the exit hook but not the
@@ -134,6 +158,15 @@ Example C10_sem_nonvacuous :
           ([CGuard "GuardG" "EvX"], "SB"); ([], "SB")].
 Proof. vm_compute. split; reflexivity. Qed.
 Print Assumptions C10_sem_nonvacuous.
+
+(* both Triggers before the dispatch thread gets its first turn *)
+Example C10_sem_threaded_nonvacuous :
+  t_out (trun ex_table (fun n _ => Nat.even n) [true; true; false; false; false; false; false] (tinit ex_table ["EvX"; "EvX"])) =
+    [([CEntry "SA" "EventStartup"], "SA");
+     ([CGuard "GuardG" "EvX"; CExit "SA" "EvX"; CAction "OnA" "EvX"; CEntry "SB" "EvX"], "SB");
+     ([CGuard "GuardG" "EvX"], "SB")].
+Proof. vm_compute. reflexivity. Qed.
+Print Assumptions C10_sem_threaded_nonvacuous.
 
 Example C10_handlers_nonvacuous :
   cs_handler ex_table "SA" "EvX" =
